@@ -21,11 +21,12 @@ def native_plan(tier):
     bin_dom = 'every sequence of <= %d events {derive (a, b) over 4 items, end of iteration, end of stratum} + a closing stratum end, binary trrel provider'
     ter_dom = 'every sequence of <= %d events {derive (k, a, b) over 2 keys x 3 items, end of iteration, end of stratum} + a closing stratum end, ternary trrel provider (both reverse maps)'
     ter3_dom = ter_dom.replace('2 keys', '3 keys')
+    sweep_dom = 'size sweep of the pair store under the binary provider: 4 shapes x n <= %d pairs sharing one column value or spread over two, both write paths, every pair offered twice; delta and total read through every view'
     if tier == 'thorough':
         return [('trrel_protocol_le6', ';'.join(['0-18'] * 6), bin_dom % 6), ('trrel_ternary_protocol_le6', ';'.join(['0-20'] * 6), ter_dom % 6),
-                ('trrel_ternary_protocol_k3_le5', ';'.join(['0-29'] * 5), ter3_dom % 5)]
+                ('trrel_ternary_protocol_k3_le5', ';'.join(['0-29'] * 5), ter3_dom % 5), ('binrel_sweep', '0-3;1-70', sweep_dom % 70)]
     return [('trrel_protocol_le4', ';'.join(['0-18'] * 4), bin_dom % 4), ('trrel_ternary_protocol_le4', ';'.join(['0-20'] * 4), ter_dom % 4),
-            ('trrel_ternary_protocol_k3_le4', ';'.join(['0-29'] * 4), ter3_dom % 4)]
+            ('trrel_ternary_protocol_k3_le4', ';'.join(['0-29'] * 4), ter3_dom % 4), ('binrel_sweep', '0-3;1-40', sweep_dom % 40)]
 
 
 def run(pid, tier):
@@ -44,7 +45,7 @@ def run(pid, tier):
                 if tier == 'thorough':
                     return p, kani.native_exhaust_sharded(binary, p[0], p[1], shards=16, timeout=to)
                 return p, kani.native_exhaust(binary, p[0], p[1], timeout=to)
-            with ThreadPoolExecutor(max_workers=3 if tier == 'quick' else 1) as ex2:
+            with ThreadPoolExecutor(max_workers=4 if tier == 'quick' else 1) as ex2:
                 for (h, alpha, dom), r in ex2.map(one, native_plan(tier)):
                     native[h] = dict(r, domain=dom)
                     for f in r['failures']:
